@@ -161,7 +161,9 @@ class Check:
         self.tv = 0
         self.tv_samples = []
         self.paths = 0
-        self.timeout_ms = 60000 if tier == 'quick' else 600000
+        # per-query cap; a timeout is `inconclusive`, never a pass.  120 s in the quick tier: the slowest queries of the unchanged
+        # tree need 12-37 s on an idle machine (C03 COMM-1, C18 reward formula, C17 step) and up to 3x that under load
+        self.timeout_ms = 120000 if tier == 'quick' else 600000
         self.interp = None
         self.known = self._load_known()
         self.decided_by = {}
@@ -578,7 +580,9 @@ class Check:
             return
         blocked = []
         cur = model
-        for rnd in range(5):
+        # once the check has a replay-confirmed violation, further counterexamples get one replay each instead of five rounds
+        # of model blocking (a change that breaks a shared helper fails dozens of obligations; the verdict is already settled)
+        for rnd in range(5 if not self.violations else 1):
             rep = self._try_replay(replay, cur)
             reproduced, request, observed = rep
             if reproduced:
